@@ -1,5 +1,5 @@
 """One function per property: check_<id>(tier) -> exit code."""
-import json, os, sys
+import json, os, sys, shutil
 from common import *
 import lockstep, random
 import gen_linear as GL
@@ -787,5 +787,137 @@ def check_C19(tier):
                             "spec/Sizes.tla evaluates Growth and Quadratic; a family/stage pair is non-trivial when its four sizes differ",
                     "samples": [{"family": f["name"], "stage": f["stage"], "source_tokens": f["src"], "sizes": f["size"]} for f in fams[:6]],
                     "states": r["distinct"], "transitions": r["states"]},
+                   time.time() - t0, len(viols))
+    return 1 if new else 0
+
+
+# ---------------------------------------------------------------------------------------------- C18
+FUN_TOKEN = r"""//[^\n]*|:\s*cns|==\s*0|0\s*==|!=\s*0|0\s*!=|<=\s*0|0\s*<=|>=\s*0|0\s*>=|<\s*0|0\s*<|>\s*0|0\s*>|=>|==|!=|<=|>=|[(){}\[\];,:.=<>+*\-/%]|[A-Za-z][A-Za-z0-9_]*|[0-9]+"""
+MUT_BASES = {
+    "list": "data List { Nil, Cons(x: i64, xs: List) }\ndef sum(l: List, acc: i64): i64 { l.case { Nil => acc, Cons(x, xs) => sum(xs, acc + x) } }\ndef main(n: i64): i64 { println_i64(sum(Cons(n, Cons(2, Nil)), 0)); 0 }",
+    "codata": "codata Fun[A, B] { apply(x: A): B }\ndef app(f: Fun[i64, i64], k :cns i64): i64 { goto k (f.apply[i64, i64](3)) }\ndef main(): i64 { label a { app(new { apply(y) => if y == 0 { 1 } else { y - 1 } }, a) } }",
+    "let": "def main(a: i64, b: i64): i64 { let x: i64 = (a * 2) % 7; print_i64(x); if x <= b { exit 3 } else { x / -1 } }",
+}
+MUT_ALPHABET = ["def", "data", "codata", "let", "if", "else", "case", "new", "label", "goto", "exit", "print_i64", "println_i64", "i64",
+                "(", ")", "{", "}", "[", "]", ";", ",", ":", ":cns", ".", "=", "=>", "==", "== 0", "<", "+", "-", "/", "main", "x", "Cons", "Nil",
+                "0", "1", "9223372036854775807", "9223372036854775808", "99999999999999999999999"]
+
+
+def check_C18(tier):
+    import re, time, collections
+    t0 = time.time()
+    build_harness()
+    work = fresh_dir(WORK, "C18")
+    # ---- token-level mutants, enumerated by TLC from spec/Mutate.tla
+    bases = [{"name": n, "toks": [t for t in re.findall(FUN_TOKEN, s) if not t.startswith("//")]} for n, s in MUT_BASES.items()]
+    wd = os.path.join(work, "mut")
+    os.makedirs(wd, exist_ok=True)
+    bp, cp = os.path.join(wd, "bases.json"), os.path.join(wd, "cfg.json")
+    json.dump(bases, open(bp, "w"))
+    json.dump({"alphabet": MUT_ALPHABET, "maxdepth": T(tier, 1, 2), "window": 1}, open(cp, "w"))
+    r = run_tlc("Mutate", "Mutate.cfg", wd, {"SCCV_CASES": bp, "SCCV_CFG": cp}, workers=8, timeout=T(tier, 900, 7000))
+    if r["states"] is None or r["rc"] != 0:
+        raise ToolError("Mutate did not complete: %s" % r["errors"][:2])
+    mutants = set()
+    for line in open(r["out"]):
+        if line.startswith('"MUTANT '):
+            m = json.loads(json.loads(line.strip())[len("MUTANT "):])
+            mutants.add(" ".join(m["toks"]))
+    mutants = sorted(mutants)
+    if len(mutants) < 1000:
+        raise ToolError("only %d mutants enumerated" % len(mutants))
+    rng = rng_for("C18")
+    if tier == "thorough" and len(mutants) > 400000:
+        mutants = rng.sample(mutants, 400000)
+    lst = [{"name": "tok%d" % i, "kind": "fun", "src": s, "only_valid_main": True} for i, s in enumerate(mutants)]
+    # ---- byte-level mutations (valid UTF-8 strings), extreme shapes
+    srcs = list(MUT_BASES.values()) + [open(f).read() for f in sorted(__import__("glob").glob(os.path.join(REPO, "examples", "*", "*.sc")))]
+    pool = "(){}[];,:.=<>+-*/% \n\t\"'\\#@$^&|~`?!_0123456789abcxyzXYZ\u00e9\u4e2d\u0000\ufeff"
+    nb = T(tier, 1500, 40000)
+    for i in range(nb):
+        s = rng.choice(srcs)
+        for _ in range(rng.choice([1, 1, 2, 3, 8])):
+            p = rng.randrange(len(s) + 1)
+            k = rng.random()
+            if k < 0.35:
+                s = s[:p] + rng.choice(pool) + s[p:]
+            elif k < 0.7 and p < len(s):
+                s = s[:p] + s[p + 1:]
+            elif k < 0.9 and p < len(s):
+                s = s[:p] + rng.choice(pool) + s[p + 1:]
+            else:
+                q = rng.randrange(len(s) + 1)
+                s = s[:min(p, q)] + s[max(p, q):]
+        lst.append({"name": "byte%d" % i, "kind": "fun", "src": s, "only_valid_main": True})
+    extreme = {
+        "empty": "", "only_comment": "// nothing\n", "no_main": "def f(): i64 { 1 }\n",
+        "main6": "def main(a: i64, b: i64, c: i64, d: i64, e: i64, f: i64): i64 { a }\n",
+        "main_cns": "def main(k :cns i64): i64 { goto k (1) }\n", "main_data": "data D { K }\ndef main(): D { K }\n",
+        "big_lit": "def main(): i64 { 9223372036854775808 }\n", "huge_lit": "def main(): i64 { 123456789012345678901234567890 }\n",
+        "neg_min": "def main(): i64 { -9223372036854775808 }\n", "max_lit": "def main(): i64 { 9223372036854775807 }\n",
+        "deep_paren": "def main(): i64 { " + "(" * 300 + "1" + ")" * 300 + " }\n",
+        "deep_let": "def main(): i64 { " + "".join("let x%d: i64 = %d; " % (i, i) for i in range(300)) + "x0 }\n",
+        "deep_if": "def main(a: i64): i64 { " + "if a == 1 { " * 120 + "0" + " } else { 1 }" * 120 + " }\n",
+        "dup_def": "def main(): i64 { 1 }\ndef main(): i64 { 2 }\n", "dup_data": "data D { K }\ndata D { K }\ndef main(): i64 { 1 }\n",
+        "self_type": "data D { K(d: D) }\ndef main(): i64 { 1 }\n", "unknown_type": "def main(x: Foo): i64 { 1 }\n",
+        "poly_arity": "data L[A] { N }\ndef f(x: L[i64, i64]): i64 { 1 }\ndef main(): i64 { 1 }\n",
+        "poly_missing": "data L[A] { N, C(x: A) }\ndef f(x: L): i64 { 1 }\ndef main(): i64 { 1 }\n",
+        "empty_case": "data D { K }\ndef main(): i64 { K.case { } }\n", "empty_new": "codata C { }\ndef main(): i64 { let c: C = new { }; 1 }\n",
+        "empty_data": "data E { }\ndef f(e: E): i64 { e.case { } }\ndef main(): i64 { 1 }\n",
+        "recursive_main": "def main(): i64 { main() }\n", "label_shadow": "def main(x: i64): i64 { label x { goto x (x) } }\n",
+    }
+    for n, s in extreme.items():
+        lst.append({"name": "x_" + n, "kind": "fun", "src": s, "only_valid_main": True})
+    lp = os.path.join(work, "list.json")
+    json.dump(lst, open(lp, "w"))
+    art = os.path.join(work, "art")
+    sccv("pipeline", lp, art, "x86,a64,rv64", timeout=T(tier, 1800, 7000))
+    index = {c["name"]: c for c in json.load(open(os.path.join(art, "index.json")))}
+    shutil.rmtree(art, ignore_errors=True)    # thousands of assembly files: only the stage events are needed
+    srcof = {c["name"]: c["src"] for c in lst}
+    traces = []
+    for n, e in index.items():
+        evs = [{"stage": s["stage"], "class": stages.classify_event(s), "msg": s["msg"][:160]} for s in e["stages"]]
+        # capacity facts are not needed here: a capacity outcome is accepted for C18 (it is the one documented exception)
+        traces.append({"name": n, "kind": "stages", "events": evs, "facts": {"nargs": 9, "maxctx": 1000, "hasprint": True}})
+    # ---- files on disk, through Driver::checked (invalid UTF-8 included)
+    fdir = os.path.join(work, "files")
+    os.makedirs(fdir, exist_ok=True)
+    blobs = {"latin1.sc": "def main(): i64 { 1 } // caf\xe9\n".encode("latin-1"), "nul.sc": b"def main(): i64 { 1 }\x00\n",
+             "bom.sc": b"\xef\xbb\xbfdef main(): i64 { 1 }\n", "truncated_utf8.sc": b"def main(): i64 { 1 } // \xe4\xb8", "binary.sc": bytes(range(256)),
+             "ok.sc": b"def main(): i64 { 1 }\n"}
+    for n, b in blobs.items():
+        open(os.path.join(fdir, n), "wb").write(b)
+    fl, fo = os.path.join(work, "files.json"), os.path.join(work, "files-out.json")
+    json.dump([os.path.join(fdir, n) for n in blobs], open(fl, "w"))
+    sccv("check-files", fl, fo)
+    for x in json.load(open(fo)):
+        cls = "ok" if x["outcome"] == "ok" else ("parse_error" if x["outcome"] == "error" else "panic")
+        nm = "file_" + os.path.basename(x["path"])
+        traces.append({"name": nm, "kind": "stages", "events": [{"stage": "parse", "class": cls, "msg": x["msg"][:160]}], "facts": {"nargs": 0, "maxctx": 0, "hasprint": False}})
+        srcof[nm] = repr(blobs[os.path.basename(x["path"])])
+    rr = stages.run_stage_traces(work, traces)
+    viols, stats = [], collections.Counter()
+    for x in rr["results"]:
+        stats[x["status"]] += 1
+        if x["status"] == "tool":
+            raise ToolError(x["why"])
+        if x["status"] == "rejected":
+            m = re.search(r"not in its alphabet: (.*)$", x["why"])
+            msg = lockstep.normalize_why((m.group(1) if m else x["why"])[:70])
+            stage = re.search(r"of stage (\w+)", x["why"])
+            rp = save_replay("C18", x["case"], {"input": srcof.get(x["case"]), "why": x["why"]})
+            viols.append({"signature": "C18:%s:%s" % (stage.group(1) if stage else "order", msg), "replay": rp, "what": "%s: %s" % (x["case"], x["why"][:200])})
+    accepted = sum(1 for e in index.values() if any(s["stage"] == "check" and s["outcome"] == "ok" for s in e["stages"]))
+    log("[C18] %d token mutants, %d byte mutants, %d extreme, %d files; %d accepted by the checker; %s" % (len(mutants), nb, len(extreme), len(blobs), accepted, dict(stats)))
+    new = triage("C18", viols)
+    write_evidence("C18", tier, "exploration",
+                   {"evaluations": len(traces), "distinct_nontrivial": len(set(srcof.values())),
+                    "rule": "all single (thorough: windowed double) token mutations of 3 base programs enumerated by TLC from spec/Mutate.tla; "
+                            "random byte-level edits of valid programs; extreme shapes; files with invalid UTF-8 through Driver::checked; "
+                            "every replay's stage-event trace validated by spec/TracePipeline.tla (a panic is in no alphabet); accepted "
+                            "programs with a valid main continue through all three backends; distinct = distinct input texts",
+                    "samples": [srcof["tok5"], srcof["byte3"], "x_deep_paren (300 levels)"], "accepted_by_checker": accepted,
+                    "states": r["distinct"] + rr["distinct"], "transitions": r["states"] + rr["states"], "outcomes": dict(stats)},
                    time.time() - t0, len(viols))
     return 1 if new else 0
